@@ -960,13 +960,13 @@ Section Ops3.
   (* ---------------------------------------------------------------- the outcome a caller receives *)
   Lemma done_v03 m s i out s' :
     sim m s -> RC m s -> poll_call s i = (CDone out, s') ->
-    sim (snd (chk_obs maxif (PollCall i) m [OCall (CDone out)])) s' ->
+    sim (snd (chk_obs maxif (PollCall i : op) m [OCall (CDone out)])) s' ->
     v03 (chk_done (rec_op (T:=T) m (PollCall i)) i out) = true.
   Proof.
     intros S R H S'. cbn [chk_done v03]. set (m1 := rec_op (T:=T) m (PollCall i)).
     apply forallb_forall. intros sr Hsr. apply negb_true_iff.
     unfold sent_for in Hsr. destruct (id_of m1 i) as [id|] eqn:Eid; [|destruct Hsr].
-    apply filter_In in Hsr. destruct Hsr as [Hsr He]. apply N.eqb_eq in He. rewrite He.
+    apply filter_In in Hsr. destruct Hsr as [Hsr He]. apply N.eqb_eq in He.
     assert (Hc : forall x, cancelled m1 x = cancelled m x).
     { intro x. unfold cancelled, m1. rewrite rec_op_cancels. reflexivity. }
     rewrite Hc.
@@ -980,7 +980,7 @@ Section Ops3.
     pose proof (sc_id _ _ C' _ _ Ec' Hin) as Hid.
     assert (Eid' : id = c_id c').
     { change (id_of m1 i = Some (c_id c')) in Hid. congruence. }
-    subst id.
+    rewrite He, Eid'. clear He Eid' Eid.
     (* before the poll the call was live or new *)
     destruct (nth_error (calls s) i) as [c|] eqn:Ec.
     2:{ revert H. unfold poll_call. rewrite Ec. discriminate. }
@@ -1005,9 +1005,8 @@ Section Ops3.
 
   Lemma RB_init t0 qcap mif : RB m0 (init (T:=T) t0 qcap mif).
   Proof.
-    constructor; cbn [inflight calls rx_closed init map]; try reflexivity; try (intros; contradiction).
-    - intros [|j] c H; discriminate.
-    - intros [|j] c H; discriminate.
+    constructor; cbn [inflight calls rx_closed init map]; try reflexivity; try (intros; contradiction);
+      intros [|j] c H; discriminate.
   Qed.
   Lemma RC_init t0 qcap mif : RC m0 (init (T:=T) t0 qcap mif).
   Proof.
@@ -1031,4 +1030,176 @@ Section Ops3.
       - congruence. }
     exact (DR3_msteps tp maxif m _ _ _ (run_loop_msteps tp _ _ _ _ H) D0).
   Qed.
+
+  Lemma clean_log_dirty l : dirty l -> clean_log l = false.
+  Proof.
+    intro H. destruct (clean_log l) eqn:E; [|reflexivity]. exfalso.
+    eapply dirty_not_clean; [exact H|apply clean_log_sink, E].
+  Qed.
+
+  Lemma c03_step m s (o : op) :
+    sim m s -> N.of_nat (S (length (m_polled m))) < two64 -> Inv s -> R03 m s ->
+    v03 (fst (chk_obs maxif o m (snd (step tp fuel_of s o)))) = true /\
+    R03 (snd (chk_obs maxif o m (snd (step tp fuel_of s o)))) (fst (step tp fuel_of s o)).
+  Proof.
+    intros HS Hw Iv [R1 RCc RBr].
+    destruct (c10_step tp fuel_of maxif m s o HS Hw Iv R1) as [_ R1'].
+    pose proof (sim_step tp fuel_of maxif m s o HS Hw) as HS'.
+    assert (Hnid : next_id s + 1 < two64) by (rewrite (sc_next _ _ (sim_c _ _ HS)); lia).
+    assert (NonD : forall o' : op, o' <> PollDispatch -> o' <> DropDispatch ->
+              R10 (snd (chk_obs maxif o' m (snd (step tp fuel_of s o')))) (fst (step tp fuel_of s o')) ->
+              R03 (snd (chk_obs maxif o' m (snd (step tp fuel_of s o')))) (fst (step tp fuel_of s o'))).
+    { intros o' H2 H3 R1o.
+      assert (F : UFrame s (fst (step tp fuel_of s o'))).
+      { destruct (step tp fuel_of s o') as [sx osx] eqn:Es. eapply (UFrame_step tp fuel_of); eassumption. }
+      constructor; [exact R1o|apply RC_step; assumption|].
+      intro Hr. apply RB_step; try assumption. apply RBr. eapply running_UFrame; eassumption. }
+    assert (NilV : forall o' : op, (forall j, o' <> PollCall j) -> o' <> PollDispatch ->
+              v03 (fst (chk_obs maxif o' m (snd (step tp fuel_of s o')))) = true).
+    { intros o' H1 H2. rewrite (step_nil_obs tp fuel_of s o' H1 H2), chk_obs_nil. reflexivity. }
+    destruct o; try (split; [apply NilV; [intros j; discriminate|discriminate]
+                            |apply NonD; [discriminate|discriminate|exact R1']]).
+    - (* PollCall *)
+      split; [|apply NonD; [discriminate|discriminate|exact R1']].
+      revert HS'. cbn [step]. destruct (poll_call s i) as [r s'] eqn:E. cbn [fst snd].
+      destruct r as [|out|]; cbn [fst snd chk_obs]; try reflexivity.
+      intro HS'. eapply done_v03; eassumption.
+    - (* PollDispatch *)
+      clear HS'.
+      destruct (finished s) as [d|] eqn:Ef.
+      { revert R1'. cbn [step]. rewrite Ef. cbn. intro R1'. split; [reflexivity|].
+        constructor; [exact R1'|exact RCc|intros (_ & _ & H); congruence]. }
+      destruct (dropped s) eqn:Ed.
+      { revert R1'. cbn [step]. rewrite Ef, Ed. cbn. intro R1'. split; [reflexivity|].
+        constructor; [exact R1'|exact RCc|intros (_ & H & _); congruence]. }
+      set (s0 := upd_tr s (tr s) (fused s) []).
+      destruct (poll_dispatch tp (fuel_of s0) s0) as [r s1] eqn:E.
+      set (s2 := match r with DReady d => upd_fin s1 (Some d) (dropped s1) | _ => s1 end).
+      assert (Est : step tp fuel_of s PollDispatch =
+                    (upd_tr s2 (tr s2) (fused s2) [],
+                     [OCalls (plog s1); ODisp r;
+                      OGauge (N.of_nat (length (inflight s2))) (N.of_nat (length (timers s2)))])).
+      { cbn [step]. rewrite Ef, Ed. fold s0. rewrite E. reflexivity. }
+      revert R1'. rewrite Est. cbn [fst snd]. intro R1'.
+      assert (S0 : sim m s0) by (eapply sim_frame; [exact HS|reflexivity..]).
+      assert (I0 : Inv s0) by (eapply InvX_vframe; [|exact Iv]; constructor; reflexivity).
+      assert (R90 : R09 m s0) by (destruct (r10_09 _ _ R1); constructor; assumption).
+      assert (Hal0 : alive s0) by (split; cbn; [exact Ed|rewrite Ef; discriminate]).
+      destruct (c09_poll_dispatch tp fuel_of maxif m s0 _ _ _ E eq_refl R90 I0 Hal0) as (_ & Ee & _ & _).
+      (* what the poll did *)
+      assert (K : v03 (fst (chk_calls maxif m (plog s1))) = true /\
+                  (r = DPending -> clean_log (plog s1) = true -> terminal s1 = None ->
+                   abandoned_covered (mrun m (plog s1)) = true) /\
+                  RC (mrun m (plog s1)) s1 /\
+                  (running s2 -> RB (mrun m (plog s1)) s1)).
+      { revert E. unfold poll_dispatch. destruct (terminal s0) as [a|] eqn:Et.
+        - destruct (shut_down s0 a) as [b sx] eqn:Ex.
+          pose proof (plog_shut_down _ _ _ _ Ex) as P1. pose proof (PFrame_shut_down _ _ _ _ Ex) as F1.
+          pose proof (live_ok_shut_down s0 a I0 (sim_w _ _ S0)) as L. rewrite Ex in L. cbn [snd] in L.
+          assert (C0 : RC m s0) by (destruct RCc; constructor; assumption).
+          destruct b; intros [= <- <-]; rewrite P1; cbn [plog upd_tr s0 chk_calls fst mrun fold_left];
+            (split; [reflexivity|split; [|split; [apply (RC_live m s0 _ L C0)|]]]).
+          + discriminate.
+          + intros (H1 & _ & _). exfalso. unfold s2 in H1. cbn [terminal upd_fin] in H1.
+            rewrite (pf_terminal _ _ F1) in H1. congruence.
+          + intros _ _ H1. exfalso. rewrite (pf_terminal _ _ F1) in H1. congruence.
+          + intros (H1 & _ & _). exfalso. unfold s2 in H1. rewrite (pf_terminal _ _ F1) in H1. congruence.
+        - destruct (run_loop tp (fuel_of s0) s0) as [rr sA] eqn:Ex.
+          assert (Hrun : running s) by (repeat split; [exact Et|exact Ed|exact Ef]).
+          assert (RA0 : RA m s0).
+          { exact (RA_frame m m s s0 eq_refl eq_refl eq_refl eq_refl eq_refl eq_refl
+                     eq_refl eq_refl eq_refl eq_refl eq_refl eq_refl eq_refl eq_refl eq_refl (r10_ra _ _ R1 Hrun)). }
+          assert (B0 : RB m s0) by (destruct (RBr Hrun); constructor; assumption).
+          assert (C0 : RC m s0) by (destruct RCc; constructor; assumption).
+          pose proof (c03_run_loop m s0 _ _ _ Ex eq_refl S0 I0 RA0 B0 C0 (r10_fu _ _ R1 Hrun) Et Ed Ef) as D3.
+          destruct D3 as [DR Iva Hfa Ba Ca Va].
+          destruct rr as [|a| |].
+          + intros [= <- <-]. split; [exact Va|]. split; [discriminate|]. split; [exact Ca|intros _; exact Ba].
+          + destruct (shut_down (upd_term sA (Some a)) a) as [b sy] eqn:Ey.
+            pose proof (plog_shut_down _ _ _ _ Ey) as P2. pose proof (PFrame_shut_down _ _ _ _ Ey) as F2.
+            cbn [plog upd_term] in P2.
+            assert (Iu : Inv (upd_term sA (Some a))) by (apply Inv_upd_term; [apply (dr_t _ _ _ DR)|exact Iva]).
+            assert (Wu : winv (upd_term sA (Some a))).
+            { eapply winv_frame; [apply (sim_w _ _ (ds_sim _ _ _ (dr_sim _ _ _ DR)))|reflexivity..]. }
+            pose proof (live_ok_shut_down _ a Iu Wu) as L. rewrite Ey in L. cbn [snd] in L.
+            assert (Cu : RC (mrun m (plog sA)) (upd_term sA (Some a))) by (destruct Ca; constructor; assumption).
+            assert (Ht : terminal sy = Some a) by (rewrite (pf_terminal _ _ F2); reflexivity).
+            destruct b; intros [= <- <-]; rewrite P2;
+              (split; [exact Va|split; [|split; [apply (RC_live _ _ _ L Cu)|]]]).
+            * discriminate.
+            * intros (H1 & _ & _). exfalso. unfold s2 in H1. cbn [terminal upd_fin] in H1. congruence.
+            * intros _ _ H1. congruence.
+            * intros (H1 & _ & _). exfalso. unfold s2 in H1. congruence.
+          + intros [= <- <-]. split; [exact Va|]. split; [|split; [exact Ca|intros _; exact Ba]].
+            intros _ Hcl _. destruct (run_loop_pending_cancels tp _ _ _ Ex) as [Hc|Hd].
+            * apply (ab_cov (mrun m (plog sA)) sA); [apply (ds_sim _ _ _ (dr_sim _ _ _ DR))|apply (dr_ra _ _ _ DR)
+                                                    |exact Hc|apply (dr_t _ _ _ DR)|apply (dr_d _ _ _ DR)].
+            * rewrite (clean_log_dirty _ Hd) in Hcl. discriminate.
+          + intros [= <- <-]. split; [exact Va|]. split; [discriminate|]. split; [exact Ca|intros _; exact Ba]. }
+      destruct K as (V & Hab & Cc1 & Bb1).
+      revert R1'. cbn [chk_obs rec_op].
+      pose proof (chk_calls_snd maxif m (plog s1)) as Esnd.
+      destruct (chk_calls maxif m (plog s1)) as [v m2]. cbn [fst snd] in V, Esnd. subst m2.
+      destruct (c_poll _ _ _) as [okc c2]. cbn [fst snd vand v03]. intro R1'. rewrite V. cbn [andb]. split.
+      * destruct (is_pending r && clean_log (plog s1) &&
+                  match m_first_err (mrun m (plog s1)) with None => true | Some _ => false end) eqn:Ec;
+          [|reflexivity]. cbn [negb orb].
+        apply andb_true_iff in Ec. destruct Ec as [Ec E3]. apply andb_true_iff in Ec. destruct Ec as [E1' E2].
+        apply Hab; [destruct r; try discriminate; reflexivity|exact E2|].
+        rewrite Ee in E3. destruct (terminal s1); [discriminate|reflexivity].
+      * assert (Es2 : running s2 -> s2 = s1).
+        { intros (_ & _ & H). unfold s2 in *. destruct r as [d| |]; try reflexivity. cbn in H. discriminate. }
+        constructor; [exact R1'| |].
+        -- assert (C2 : RC (mrun m (plog s1)) s2).
+           { unfold s2. destruct r; try exact Cc1. destruct Cc1; constructor; assumption. }
+           match goal with |- RC ?mm ?ss =>
+             exact (proj2 (RBC_same (mrun m (plog s1)) mm s2 ss eq_refl eq_refl eq_refl eq_refl eq_refl eq_refl eq_refl) C2)
+           end.
+        -- intros Hr. assert (Hr2 : running s2) by exact Hr. rewrite (Es2 Hr2).
+           match goal with |- RB ?mm ?ss =>
+             exact (proj1 (RBC_same (mrun m (plog s1)) mm s1 ss eq_refl eq_refl eq_refl eq_refl eq_refl eq_refl eq_refl)
+                      (Bb1 Hr2))
+           end.
+    - (* DropDispatch *)
+      split; [reflexivity|]. revert R1'. cbn [step fst snd]. rewrite chk_obs_nil. cbn [snd]. intro R1'.
+      constructor; [exact R1'| |].
+      + assert (C2 : RC m (if dropped s then s else drop_dispatch s)).
+        { destruct (dropped s); [exact RCc|]. apply (RC_live m s); [apply live_ok_drop_dispatch, HS|exact RCc]. }
+        match goal with |- RC ?mm ?ss =>
+          apply (proj2 (RBC_same m mm ss ss (rec_op_sent m _) (rec_op_cancels m _)
+                          (rec_op_polled m DropDispatch ltac:(discriminate))
+                          eq_refl eq_refl eq_refl eq_refl)); exact C2
+        end.
+      + intros (_ & H & _). exfalso. revert H.
+        destruct (dropped s) eqn:Ed; [congruence|]. destruct (drop_dispatch_frame s) as (_ & _ & F3). congruence.
+  Qed.
+
+  Lemma c03_run (ops : list op) : forall m s,
+    sim m s -> N.of_nat (length (m_polled m) + length ops) < two64 -> Inv s -> R03 m s ->
+    v03 (chk_run maxif m ops (fst (run_from tp fuel_of s ops))) = true.
+  Proof.
+    induction ops as [|o ops IH]; intros m s HS Hw Iv R; cbn [run_from chk_run fst]; [reflexivity|].
+    assert (Hw1 : N.of_nat (S (length (m_polled m))) < two64) by (cbn [length] in Hw; lia).
+    destruct (c03_step m s o HS Hw1 Iv R) as [V R'].
+    pose proof (sim_step tp fuel_of maxif m s o HS Hw1) as HS'.
+    pose proof (polled_chk_obs_le maxif m o (snd (step tp fuel_of s o))) as Hle.
+    assert (Iv' : Inv (fst (step tp fuel_of s o))).
+    { destruct (step tp fuel_of s o) as [s1 l] eqn:Es. cbn [fst].
+      eapply (Inv_step tp fuel_of); [exact Es| |exact Iv].
+      rewrite (sc_next _ _ (sim_c _ _ HS)). lia. }
+    destruct (step tp fuel_of s o) as [s1 l]. cbn [fst snd] in *.
+    destruct (run_from tp fuel_of s1 ops) as [ls s2] eqn:Er. cbn [fst].
+    destruct (chk_obs maxif o m l) as [v m']. cbn [fst snd] in *. cbn [vand v03].
+    rewrite V. cbn [andb].
+    specialize (IH m' s1 HS'). rewrite Er in IH. apply IH; [|exact Iv'|exact R'].
+    cbn [length] in Hw. lia.
+  Qed.
 End Ops3.
+
+Theorem c03_cancel_on_wire {T : Type} : @stmt_c03 T.
+Proof.
+  intros tp fuel_of t0 qcap maxif ops Hw. unfold c03_ok, monitors, client_trace.
+  apply c03_run; [apply sim_init| |apply Inv_init|apply R03_init].
+  unfold no_wrap in Hw. cbn. unfold two64. lia.
+Qed.
+Print Assumptions c03_cancel_on_wire.
